@@ -4,6 +4,9 @@
 // every step (patterns intact, blocks disjoint, calloc zeroed, prefix preserved,
 // overflow -> NULL+ENOMEM, backend ledger exact).
 #include <cerrno>
+#include <unistd.h>
+#include <sys/mman.h>
+#include <map>
 #include <algorithm>
 #include "observe.hpp"
 
@@ -12,7 +15,7 @@ using namespace vf;
 static const size_t SZMAX = (size_t)-1;
 static size_t pick_size(Tape &t) {
   switch (t.weighted({10, 2, 1, 1, 1, 1, 1, 1, 1})) {
-    case 8: return t.coin() ? 70000 + t.below(3) : 200000 + t.below(70000);  // large blocks: shrinking them crosses any "slack" threshold
+    case 8: return t.chance(1, 3) ? 70000 + t.below(3) : t.coin() ? 200000 + t.below(70000) : (size_t)(1u << 20) + t.below(1u << 20);  // up to 2 MiB  // large blocks: shrinking them crosses any "slack" threshold
     case 0: return t.below(65);
     case 1: return 4096 + t.below(3);
     case 2: return 0;
@@ -227,4 +230,67 @@ static Verdict check(const Fields &f) {
   return Verdict::pass();
 }
 
-const Harness vf::HARNESS = {"C15", gen, check, nullptr, nullptr};
+// ---- blocks beyond 4 GiB (fixed probe, one shard): a size that does not fit 32 bits must be remembered in full ----------
+// The backend hands out fresh, untouched mappings (MAP_NORESERVE), so only the pages the probe writes - and the pages the
+// emulated realloc copies into - become resident.
+struct MapBackend {
+  UriMemoryManager mm;
+  std::map<void *, size_t> live;
+  uint64_t bad = 0;
+  MapBackend() { memset(&mm, 0, sizeof mm); mm.malloc = &s_malloc; mm.free = &s_free; mm.userData = this; }
+  static void *s_malloc(UriMemoryManager *m, size_t n) {
+    MapBackend *self = (MapBackend *)m->userData;
+    void *p = mmap(nullptr, n ? n : 1, PROT_READ | PROT_WRITE, MAP_PRIVATE | MAP_ANONYMOUS | MAP_NORESERVE, -1, 0);
+    if (p == MAP_FAILED) { errno = ENOMEM; return nullptr; }
+    self->live[p] = n ? n : 1;
+    return p;
+  }
+  static void s_free(UriMemoryManager *m, void *p) {
+    MapBackend *self = (MapBackend *)m->userData;
+    if (!p) return;
+    auto it = self->live.find(p);
+    if (it == self->live.end()) { self->bad++; return; }
+    munmap(p, it->second);
+    self->live.erase(it);
+  }
+};
+static Verdict huge_block_probe() {
+  MapBackend be;
+  UriMemoryManager m;
+  VF_REQUIRE(uriCompleteMemoryManager(&m, &be.mm) == 0, "uriCompleteMemoryManager failed on the mapping backend");
+  const size_t G4 = (size_t)1 << 32;
+  if (sizeof(size_t) < 8) return Verdict::pass();
+  // the emulated realloc copies 4 GiB: only attempted where that much memory is plainly free
+  if ((double)sysconf(_SC_AVPHYS_PAGES) * (double)sysconf(_SC_PAGESIZE) < 12.0 * 1024 * 1024 * 1024) { stats().relax("huge_block_probe:less_than_12GiB_free"); return Verdict::pass(); }
+  size_t s1 = G4 + 64;
+  unsigned char *p = (unsigned char *)m.malloc(&m, s1);
+  if (!p) { stats().relax("huge_block_probe:no_address_space"); return Verdict::pass(); }
+  auto mark = [&](unsigned char *b, size_t size) { for (size_t off : {(size_t)0, (size_t)4096, G4 - 32, G4 + 8}) for (size_t i = 0; i < 24 && off + i < size; i++) b[off + i] = (unsigned char)(0x40 + ((off >> 7) + i) % 64); };
+  auto marked = [&](unsigned char *b, size_t size) -> long { for (size_t off : {(size_t)0, (size_t)4096, G4 - 32, G4 + 8}) for (size_t i = 0; i < 24 && off + i < size; i++) if (b[off + i] != (unsigned char)(0x40 + ((off >> 7) + i) % 64)) return (long)(off + i); return -1; };
+  mark(p, s1);
+  // grow: the whole old size is the common prefix
+  unsigned char *q = (unsigned char *)m.realloc(&m, p, s1 + 8192);
+  if (!q) { m.free(&m, p); stats().relax("huge_block_probe:grow_refused"); return Verdict::pass(); }
+  long bad = marked(q, s1);
+  VF_REQUIRE(bad < 0, "a block of 4 GiB + 64 bytes grown by realloc lost its contents at offset %ld", bad);
+  // shrink below 4 GiB and grow again beyond it
+  unsigned char *r = (unsigned char *)m.realloc(&m, q, G4 - 16);
+  VF_REQUIRE(r != nullptr, "shrinking a 4 GiB block failed");
+  for (size_t i = 0; i < 24; i++) VF_REQUIRE(r[4096 + i] == (unsigned char)(0x40 + ((4096 >> 7) + i) % 64), "shrinking a 4 GiB block lost the common prefix");
+  m.free(&m, r);
+  VF_REQUIRE(be.live.empty() && be.bad == 0, "4 GiB probe: backend ledger unbalanced (%zu live, %llu bad frees)", be.live.size(), (unsigned long long)be.bad);
+  return Verdict::pass();
+}
+static Verdict enumerate(int tier, int shard, int nshards, Fields *failing) {
+  (void)tier; (void)nshards;
+  if (shard != 0) return Verdict::pass();
+  { Fields c; c.seti("huge_block_probe", 1); note_case(c); }
+  Verdict v = huge_block_probe();
+  stats().evaluations++;
+  if (v.kind == Verdict::FAIL) { failing->seti("huge_block_probe", 1); return v; }
+  stats().nontrivial("huge_block_probe", "malloc(4 GiB + 64) -> realloc(+8192) -> realloc(4 GiB - 16) -> free through a completed manager over a mapping backend");
+  return Verdict::pass();
+}
+static Verdict check_dispatch(const Fields &f) { return f.has("huge_block_probe") ? huge_block_probe() : check(f); }
+
+const Harness vf::HARNESS = {"C15", gen, check_dispatch, enumerate, nullptr};
